@@ -199,7 +199,19 @@ pub fn limb_pattern(s: &mut Src) -> BigUint {
 pub fn stored_pattern(s: &mut Src, m: Md) -> BigUint {
     let p = m.p();
     let j = BigUint::from(s.choose16(401) as u32);
-    match s.choose(8) {
+    match s.choose(10) {
+        8 | 9 => {
+            // thresholds of small multiples: floor(k*p/m) +- j for m in {2,3,4,5,8} - the values where 2a, 3a, 4a, 5a, 8a
+            // cross a multiple of p (double / triple / mul-by-small-constant with a single quotient estimate)
+            let m = [2u32, 3, 4, 5, 8][s.choose(5)];
+            let k = 1 + (s.choose(8) as u32) % (m - 1).max(1);
+            let base = (p * k) / m;
+            if s.bool() {
+                (base + j) % p
+            } else {
+                (base + p - (j % p)) % p
+            }
+        }
         5 => {
             // a halved or doubled limb pattern: (B + p)/2 for odd B, B/2 for even B, 2B mod p
             // (binary-Euclid inversion and div2 produce exactly such values from their predecessors)
